@@ -278,10 +278,10 @@ Section Names.
         then Some (dict_of t) else None
     end.
 
-  (* generation as coded never fails because of an unparsable operation: warn and skip *)
   Inductive outcome := Generated (f : list (str * (str * list str))) (p : option (list (str * str))) | Failed.
+  (* after the fix of F07f: parse_operations raises once the loop is over if any operation was skipped *)
   Definition generate (st : strategy) (doc : list raw_op) : outcome :=
-    let l := parse st doc in Generated (files l) (props l).
+    if is_nil (skipped st doc) then let l := parse st doc in Generated (files l) (props l) else Failed.
 
   (* ---------- the property's statement (C07) ---------- *)
   Definition same_op (a b : op) : bool :=
